@@ -117,6 +117,7 @@ class AppInst:
         self.recv_off = 0  # request body bytes delivered so far
         self.pc = 0
         self.done = False
+        self.got_disc = False
 
     def log(self, e: str, **kw: Any) -> None:
         self.sess.trace.log(e, app=self.rid, **kw)
@@ -144,6 +145,9 @@ class AppInst:
             fields.update(self.sess.identify_ws_message(self.rid, msg))
         elif t == "websocket.disconnect":
             fields["code"] = int(msg.get("code", -1))
+            self.got_disc = True
+        elif t == "http.disconnect":
+            self.got_disc = True
         elif t.startswith("lifespan."):
             pass
         self.log("app_recv", **fields)
@@ -159,12 +163,12 @@ class AppInst:
                 elif name == "recv":
                     await self._recv(receive)
                 elif name == "recv_body":
-                    while True:
+                    while not self.got_disc:
                         msg = await self._recv(receive)
                         if msg["type"] != "http.request" or not msg.get("more_body", False):
                             break
                 elif name == "recv_disc":
-                    while True:
+                    while not self.got_disc:
                         msg = await self._recv(receive)
                         if msg["type"] in ("http.disconnect", "websocket.disconnect"):
                             break
